@@ -7,6 +7,7 @@ CONSTANTS
   MaxFaults = 1
   MaxEnv = 1
   ForeignAt = "name"
+  RenderFails = FALSE
   FailKinds = {"reqloop1"}
 VIEW view
 ACTION_CONSTRAINT Emit
